@@ -2,14 +2,17 @@
 C19 helper lemmas, part 3: what one atomic instruction does to the token balance
 (`pending` vs. outstanding completions), to well-formedness and to the ghost counters.
 -/
-import LinVerif.Lemmas.C19Base
+import LinVerif.Lemmas.C19Created
 
 namespace LinVerif.Pipeline
 
-/-- the instruction loses no completion: it is not the execution of a panicking stage, or the
-panicking stage is completed by `executeStage`'s own recover (variant `stageRecover`) -/
+/-- the instruction loses no completion under `cfg`: a panic (of `Plan()`, of the execution, of
+`NextStages()`) only if `executeStage` recovers and completes the stage, a rejected task only if the
+pool notifies the task's handler -/
 def Instr.noLoss (cfg : Cfg) : Instr → Prop
-  | .exec s => cfg.stageRecover = true ∨ s.out ≠ .panic
+  | .launch s => (s.planPanics = true → cfg.stageRecover = true) ∧
+      (s.planPanics = false → s.run = .rejected → cfg.rejectNotifies = true)
+  | .exec s => s.out.panics = true → cfg.stageRecover = true
   | _ => True
 
 /-- token balance of one instruction; tokens are lost only when a panic unwinds a continuation -/
@@ -17,19 +20,23 @@ theorem stepInstr_owed_le (cfg : Cfg) (sh : Shared) (pooled : Bool) (i : Instr) 
     sh.pending + (csum Instr.owed (stepInstr cfg sh pooled i rest).code : Int)
         + (tsum Instr.owed (stepInstr cfg sh pooled i rest).spawn : Int)
       ≤ (stepInstr cfg sh pooled i rest).sh.pending + (csum Instr.owed (i :: rest) : Int) := by
-  cases i <;> simp only [stepInstr] <;> (repeat' split) <;> simp [Instr.owed] <;> omega
+  cases i <;> simp only [stepInstr, panicEff] <;> (repeat' split) <;> simp [Instr.owed] <;> omega
 
 theorem stepInstr_owed_eq (cfg : Cfg) (sh : Shared) (pooled : Bool) (i : Instr) (rest : List Instr)
     (hnp : i.noLoss cfg) :
     sh.pending + (csum Instr.owed (stepInstr cfg sh pooled i rest).code : Int)
         + (tsum Instr.owed (stepInstr cfg sh pooled i rest).spawn : Int)
       = (stepInstr cfg sh pooled i rest).sh.pending + (csum Instr.owed (i :: rest) : Int) := by
-  cases i <;> simp only [stepInstr] <;> (repeat' split) <;> simp_all [Instr.owed, Instr.noLoss] <;> omega
+  cases i <;> simp only [stepInstr, panicEff] <;> (repeat' split) <;>
+    simp_all [Instr.owed, Instr.noLoss, Outcome.panics] <;> omega
 
 theorem stepInstr_wf (cfg : Cfg) (sh : Shared) (pooled : Bool) (i : Instr) (rest : List Instr)
     (h : wfCode (i :: rest)) :
     wfCode (stepInstr cfg sh pooled i rest).code ∧ ∀ t ∈ (stepInstr cfg sh pooled i rest).spawn, wfCode t.code := by
   have hr : wfCode rest := h.2
+  have hpe : wfCode (panicEff cfg sh pooled rest).code := by
+    unfold panicEff
+    cases cfg.stageRecover <;> cases pooled <;> simp [wfCode, Instr.startLike, hr]
   cases i with
   | start st =>
     simp only [stepInstr]; split
@@ -38,16 +45,19 @@ theorem stepInstr_wf (cfg : Cfg) (sh : Shared) (pooled : Bool) (i : Instr) (rest
   | register st => exact ⟨wfCode_cons_of_not_startLike rfl hr, by simp [stepInstr]⟩
   | launch st =>
     simp only [stepInstr]; split
-    · exact ⟨hr, by simp [wfCode, Instr.startLike]⟩
-    · exact ⟨wfCode_cons_of_not_startLike rfl hr, by simp⟩
+    · exact ⟨hpe, by simp⟩
+    · split
+      · exact ⟨wfCode_cons_of_not_startLike rfl hr, by simp⟩
+      · exact ⟨hr, by simp [wfCode, Instr.startLike]⟩
+      · split
+        · exact ⟨wfCode_cons_of_not_startLike rfl hr, by simp⟩
+        · exact ⟨hr, by simp⟩
   | exec st =>
     simp only [stepInstr]; split
     · exact ⟨wfCode_handler_append st hr, by simp⟩
     · exact ⟨wfCode_cons_of_not_startLike rfl hr, by simp⟩
-    · split
-      · exact ⟨wfCode_cons_of_not_startLike rfl hr, by simp⟩
-      · refine ⟨?_, by simp⟩
-        cases pooled <;> simp [wfCode, Instr.startLike]
+    · exact ⟨hpe, by simp⟩
+    · exact ⟨hpe, by simp⟩
   | track e => exact ⟨wfCode_cons_of_not_startLike rfl hr, by simp [stepInstr]⟩
   | dec e =>
     simp only [stepInstr]
@@ -67,7 +77,7 @@ theorem stepInstr_cnt (cfg : Cfg) (sh : Shared) (pooled : Bool) (i : Instr) (res
     (stepInstr cfg sh pooled i rest).sh.pending + ((stepInstr cfg sh pooled i rest).sh.finished : Int)
         + (sh.registered : Int)
       = sh.pending + (sh.finished : Int) + ((stepInstr cfg sh pooled i rest).sh.registered : Int) := by
-  cases i <;> simp only [stepInstr] <;> (repeat' split) <;> simp <;> omega
+  cases i <;> simp only [stepInstr, panicEff] <;> (repeat' split) <;> simp <;> omega
 
 /-! ### state level -/
 
@@ -140,46 +150,18 @@ theorem stepInstr_stageOK {P : Stage → Prop} (hP : ∀ s, P s → ∀ c ∈ s.
       ∀ t ∈ (stepInstr cfg sh pooled i rest).spawn, ∀ j ∈ t.code, j.stageOK P := by
   have hi : i.stageOK P := h i (by simp)
   have hr : ∀ j ∈ rest, j.stageOK P := fun j hj => h j (by simp [hj])
-  have cons : ∀ {j : Instr}, j.stageOK P → ∀ k ∈ j :: rest, k.stageOK P :=
-    fun hj => List.forall_mem_cons.mpr ⟨hj, hr⟩
-  cases i with
-  | start st =>
-    simp only [stepInstr]; split
-    · exact ⟨hr, by simp⟩
-    · exact ⟨cons hi, by simp⟩
-  | register st => exact ⟨cons hi, by simp [stepInstr]⟩
-  | launch st =>
-    simp only [stepInstr]; split
-    · exact ⟨hr, by simpa [Instr.stageOK] using hi⟩
-    · exact ⟨cons hi, by simp⟩
-  | exec st =>
-    simp only [stepInstr]; split
-    · refine ⟨?_, by simp⟩
-      intro j hj
-      simp only [handler, List.append_assoc, List.mem_append, List.mem_map, List.mem_cons,
-        List.mem_nil_iff, or_false] at hj
-      rcases hj with ⟨c, hc, rfl⟩ | rfl | hj
-      · exact hP st hi c hc
-      · trivial
-      · exact hr j hj
-    · exact ⟨cons trivial, by simp⟩
-    · split
-      · exact ⟨cons trivial, by simp⟩
-      · refine ⟨?_, by simp⟩
-        cases pooled <;> simp [Instr.stageOK]
-  | track e => exact ⟨cons trivial, by simp [stepInstr]⟩
-  | dec e =>
-    simp only [stepInstr]
-    split
-    · split
-      · exact ⟨cons trivial, by simp⟩
-      · exact ⟨cons trivial, by simp⟩
-    · exact ⟨hr, by simp⟩
-  | load own => exact ⟨cons trivial, by simp [stepInstr]⟩
-  | fire e own =>
-    simp only [stepInstr]; split
-    · exact ⟨hr, by simp⟩
-    · exact ⟨hr, by simp⟩
+  refine ⟨stepInstr_forall hr ?_, ?_⟩
+  · intro j hc
+    cases hc with
+    | reg s _ => exact hi
+    | launch s => exact hi
+    | inl s _ _ => exact hi
+    | child s c _ hcm => exact hP s hi c hcm
+    | _ => trivial
+  · intro t ht j hj
+    obtain ⟨st, rfl, _, _, rfl⟩ := stepInstr_spawn ht
+    simp only [List.mem_singleton] at hj; subst hj
+    exact hi
 
 def StagesOK (P : Stage → Prop) (s : State) : Prop := ∀ t ∈ s.threads, ∀ i ∈ t.code, i.stageOK P
 
@@ -190,40 +172,65 @@ theorem step_stagesOK {P : Stage → Prop} (hP : ∀ s, P s → ∀ c ∈ s.chil
   exact forall_step hs this.1 this.2
 
 theorem noPanic_hereditary : ∀ s : Stage, s.noPanic = true → ∀ c ∈ s.children, c.noPanic = true :=
-  fun s h => ((Stage.noPanic_iff s).mp h).2
+  fun s h => ((Stage.noPanic_iff s).mp h).2.2.2
+
+theorem clean_hereditary (cfg : Cfg) : ∀ s : Stage, s.clean cfg = true → ∀ c ∈ s.children, c.clean cfg = true :=
+  fun s h => ((Stage.clean_iff cfg s).mp h).2.2
+
+/-- instructions that only carry clean stages lose no completion -/
+theorem noLoss_of_clean {cfg : Cfg} {i : Instr} (h : i.stageOK (fun st => st.clean cfg = true)) : i.noLoss cfg := by
+  cases i <;> simp only [Instr.noLoss]
+  · rename_i st
+    have := (Stage.clean_iff cfg st).mp h
+    refine ⟨fun hp => ?_, fun _ hr => ?_⟩
+    · rcases this.1 with ⟨h1, _⟩ | h1
+      · rw [hp] at h1; cases h1
+      · exact h1
+    · rcases this.2.1 with h1 | h1
+      · exact absurd hr h1
+      · exact h1
+  · rename_i st
+    have := (Stage.clean_iff cfg st).mp h
+    intro hp
+    rcases this.1 with ⟨_, h1⟩ | h1
+    · rw [hp] at h1; cases h1
+    · exact h1
 
 end LinVerif.Pipeline
 
 namespace LinVerif.Pipeline
 
-/-- the instruction is not a panic that loses completions: a panicking execution is allowed only as
-the sole instruction of a pooled task (`execTask` recovers it and completes the task's stage) -/
-def Instr.safeExec (pooled : Bool) (rest : List Instr) : Instr → Prop
-  | .exec s => s.out ≠ .panic ∨ (pooled = true ∧ rest = [])
-  | _ => True
+/-- the instruction loses no completion: `noLoss`, or it is the sole instruction of a pooled task
+(`execTask` recovers its panic and completes the task's stage) -/
+def Instr.safeExec (cfg : Cfg) (pooled : Bool) (rest : List Instr) (i : Instr) : Prop :=
+  i.noLoss cfg ∨ (∃ s, i = .exec s ∧ pooled = true ∧ rest = [])
 
 theorem stepInstr_owed_eq' (cfg : Cfg) (sh : Shared) (pooled : Bool) (i : Instr) (rest : List Instr)
-    (hnp : i.safeExec pooled rest) :
+    (hnp : i.safeExec cfg pooled rest) :
     sh.pending + (csum Instr.owed (stepInstr cfg sh pooled i rest).code : Int)
         + (tsum Instr.owed (stepInstr cfg sh pooled i rest).spawn : Int)
       = (stepInstr cfg sh pooled i rest).sh.pending + (csum Instr.owed (i :: rest) : Int) := by
-  cases i <;> simp only [stepInstr] <;> (repeat' split) <;> simp_all [Instr.owed, Instr.safeExec] <;> omega
+  rcases hnp with h | ⟨s, rfl, rfl, rfl⟩
+  · exact stepInstr_owed_eq cfg sh pooled i rest h
+  · simp only [stepInstr, panicEff] <;> (repeat' split) <;> simp_all [Instr.owed]
 
 /-- pending calls of `complete` appear exactly when an instruction brings `pending` to zero -/
 theorem stepInstr_fires (cfg : Cfg) (sh : Shared) (pooled : Bool) (i : Instr) (rest : List Instr)
-    (hi : i.fires = 0) (hr : csum Instr.fires rest = 0) (hnp : i.safeExec pooled rest) (hp0 : 0 ≤ sh.pending) :
+    (hi : i.fires = 0) (hr : csum Instr.fires rest = 0) (hnp : i.safeExec cfg pooled rest) (hp0 : 0 ≤ sh.pending) :
     tsum Instr.fires (stepInstr cfg sh pooled i rest).spawn = 0 ∧
     ((stepInstr cfg sh pooled i rest).sh.pending = 0 → sh.pending ≠ 0 →
         csum Instr.fires (stepInstr cfg sh pooled i rest).code = 1) ∧
     ((stepInstr cfg sh pooled i rest).sh.pending ≠ 0 ∨ sh.pending = 0 →
         csum Instr.fires (stepInstr cfg sh pooled i rest).code = 0) ∧
     (sh.completed = true → (stepInstr cfg sh pooled i rest).sh.completed = true) := by
-  cases i <;> simp only [stepInstr] <;> (repeat' split) <;>
-    simp_all [Instr.fires, Instr.safeExec] <;> omega
+  rcases hnp with hnp | ⟨s, rfl, rfl, rfl⟩
+  · cases i <;> simp only [stepInstr, panicEff] <;> (repeat' split) <;>
+      simp_all [Instr.fires, Instr.noLoss, Outcome.panics] <;> omega
+  · simp only [stepInstr, panicEff] <;> (repeat' split) <;> simp_all [Instr.fires]
 
 /-- `completed` is never reset -/
 theorem stepInstr_completed_mono (cfg : Cfg) (sh : Shared) (pooled : Bool) (i : Instr) (rest : List Instr)
     (h : sh.completed = true) : (stepInstr cfg sh pooled i rest).sh.completed = true := by
-  cases i <;> simp only [stepInstr] <;> (repeat' split) <;> simp_all
+  cases i <;> simp only [stepInstr, panicEff] <;> (repeat' split) <;> simp_all
 
 end LinVerif.Pipeline
